@@ -10,7 +10,7 @@
 (*                                                                                                                *)
 (* The server is a state machine: Arrive (one Read returns the next segment), SeeEOF (the client closed its       *)
 (* write side), Scan (the scanner hands one token to the handler), Finish (the answer).  The same transition      *)
-(* operators are folded by Run(wire, segments, key, env), which is what the export configuration prints.          *)
+(* operators are folded by Run(W, segments, key, env), which is what the export configuration prints.             *)
 EXTENDS Integers, Sequences, FiniteSets, TLC
 
 CR == "%r"   LF == "%n"   TAB == "%t"   NUL == "%0"   HI == "%h"
